@@ -227,6 +227,7 @@ mod tokio_io_impls {
     use alloc::vec::Vec;
     use core::pin::Pin;
     use core::task::{Context, Poll, ready};
+    use crate::loom::Ordering;
     use cow_bytes::CowBytes;
     use std::io;
     use std::io::ErrorKind::BrokenPipe;
@@ -264,6 +265,15 @@ mod tokio_io_impls {
             cx: &mut Context<'_>,
             buf: &[u8],
         ) -> Poll<io::Result<usize>> {
+            if buf.is_empty() {
+                // An empty `Push` frame would be read as EOF by the peer, and there is
+                // nothing to transmit anyway.
+                return Poll::Ready(if self.finish_sent.load(Ordering::Relaxed) {
+                    Err(BrokenPipe.into())
+                } else {
+                    Ok(0)
+                });
+            }
             ready!(self.as_ref().poll_write_push(cx, buf)).ok_or(BrokenPipe)?;
             trace!("sent a frame");
             Poll::Ready(Ok(buf.len()))
@@ -297,6 +307,14 @@ mod tokio_io_impls {
             for buf in bufs {
                 total_len += buf.len();
                 slices.push(CowBytes::Temporary(buf));
+            }
+            if total_len == 0 {
+                // See `poll_write`: never send an empty `Push` frame
+                return Poll::Ready(if self.finish_sent.load(Ordering::Relaxed) {
+                    Err(io::ErrorKind::BrokenPipe.into())
+                } else {
+                    Ok(0)
+                });
             }
             let Some(()) = ready!(self.poll_obtain_write_permission(cx)) else {
                 return Poll::Ready(Err(io::ErrorKind::BrokenPipe.into()));
